@@ -1,5 +1,11 @@
 import TFV.Properties.EA
+import TFV.Properties.Src.Engine
 #print axioms TFV.EA.C03_calls
 #print axioms TFV.EA.C03_stop_exact
 #print axioms TFV.EA.C03_aim_sides
 #print axioms TFV.EA.C03_stagnation
+#print axioms TFV.SrcTie.C03_src_update_counter
+#print axioms TFV.SrcTie.C03_src_termination_check
+#print axioms TFV.SrcTie.C03_src_termination_stop
+#print axioms TFV.SrcTie.C03_src_termination_stop_no_stagnation_rule
+#print axioms TFV.SrcTie.C03_src_get_remains_calls
